@@ -347,6 +347,8 @@ mod has_more;
 /// Module defining concurrent iterator traits and implementations.
 pub mod iter;
 mod next;
+#[cfg(orx_concurrent_iter_verif)]
+pub mod verif_shim;
 
 pub use has_more::HasMore;
 pub use iter::atomic_counter::AtomicCounter;
